@@ -257,6 +257,24 @@ template <class X> static void xof_suite(const char *cls, int a, size_t declared
         { X x; x.absorb(MSG, 3); x.squeeze(got, 5); x.reset(); x.absorb(MSG, l); x.squeeze(got, 40); if (memcmp(got, exp, 40)) hx_fail(kb, "reset() is not a fresh object (len %zu)", l); }
         hx_stat("evaluations", 5);
     }
+    /* call-for-call equivalence: every sequence of up to 4 member calls over {absorb 3 / 0 bytes, squeeze 5 / 0 bytes through the pointer form, squeeze 5 / 0 bytes
+     * through the byte_array form, pad, reset}, the C state driven by the corresponding C calls in lockstep; every squeezed byte and a final 16-byte squeeze are compared */
+    for (int depth = 1; depth <= 4; depth++) { int total = 1; for (int i = 0; i < depth; i++) total *= 8;
+      for (int code = 0; code < total; code++) {
+        union { ascon_xof_state_t x; ascon_xofa_state_t xa; } s; X x; unsigned char co[16], xo[16]; int c = code, bad = -1; char hist[40] = ""; size_t at = 0;
+        if (a) ascon_xofa_init_fixed(&s.xa, declared); else ascon_xof_init_fixed(&s.x, declared);
+        for (int i = 0; i < depth && bad < 0; i++, c /= 8) { int op = c % 8; size_t hl = strlen(hist); snprintf(hist + hl, sizeof hist - hl, "%d", op);
+            switch (op) {
+            case 0: case 1: { size_t n = op == 0 ? 3 : 0; if (a) ascon_xofa_absorb(&s.xa, MSG + at, n); else ascon_xof_absorb(&s.x, MSG + at, n); x.absorb(MSG + at, n); at += n; break; }
+            case 2: case 3: { size_t n = op == 2 ? 5 : 0; if (a) ascon_xofa_squeeze(&s.xa, co, n); else ascon_xof_squeeze(&s.x, co, n); x.squeeze(xo, n); if (memcmp(co, xo, n)) bad = i; break; }
+            case 4: case 5: { size_t n = op == 4 ? 5 : 0; if (a) ascon_xofa_squeeze(&s.xa, co, n); else ascon_xof_squeeze(&s.x, co, n); ascon::byte_array o = x.squeeze(n); if (o.size() != n || (n && memcmp(co, o.data(), n))) bad = i; break; }
+            case 6: if (a) ascon_xofa_pad(&s.xa); else ascon_xof_pad(&s.x); x.pad(); break;
+            default: if (a) ascon_xofa_reinit_fixed(&s.xa, declared); else ascon_xof_reinit_fixed(&s.x, declared); x.reset(); break;
+            } }
+        if (a) { ascon_xofa_squeeze(&s.xa, co, 16); ascon_xofa_free(&s.xa); } else { ascon_xof_squeeze(&s.x, co, 16); ascon_xof_free(&s.x); }
+        x.squeeze(xo, 16); hx_stat("evaluations", 1);
+        if (bad >= 0 || memcmp(co, xo, 16)) { hx_fail(kb, "call sequence [%s] (0/1 absorb 3/0, 2/3 squeeze(ptr) 5/0, 4/5 squeeze(len) 5/0, 6 pad, 7 reset): the object's output differs from the C state driven by the same calls%s", hist, bad >= 0 ? " (inside the sequence)" : " (final squeeze)"); depth = 9; break; }
+      } }
     /* customised constructors */
     { union { ascon_xof_state_t x; ascon_xofa_state_t xa; } s;
       if (a) { ascon_xofa_init_custom(&s.xa, "name", ADB, 9, declared); ascon_xofa_absorb(&s.xa, MSG, 13); ascon_xofa_squeeze(&s.xa, exp, 40); ascon_xofa_free(&s.xa); }
